@@ -5,7 +5,11 @@ _spawn_local, the real parse_request / serialize_response / report.serialize) is
 scripted poller against Model/Gateway.lean (`poll`/`serve`), poll round by poll round.
 Oracle: written from the property text (greatest timestamp wins, results as uploaded, fresh ids, unknown =>
 error response, the gateway keeps serving); it sees only what went over the sockets, the launch commands and the
-log, never the router's own tables.
+log, never the router's own tables. A retrieved result is additionally taken through the real frontend code
+(client.request_response parsing the gateway's bytes, then api.decoded_result) and compared with the uploaded value.
+What the oracle decides itself (stated in ASSUMPTIONS): a progress report with a negative timestamp may be shown or
+ignored while no report with a non-negative one has arrived for the job; uploads inside a REPEATED shutdown notice may
+be stored or not. Nothing switches the oracle off for the rest of a history.
 """
 import base64
 import json
@@ -20,32 +24,43 @@ LEVEL_TEXT = ("Lean theorems over Model/Gateway.lean (JobRouter, handle_fe, hand
               "handled events the shown progress is the first-received among the progress reports naming the job with the greatest timestamp "
               "(shutdown notices never erase it), the result for (job,dataset) is the last accepted upload for exactly that pair or an error, "
               "ids handed out are pairwise distinct, the tracked jobs are exactly the ids handed out, a query naming an id that was never handed "
-              "out is answered with an error and leaves the state unchanged; at the serve level every history of poll rounds without a malformed "
-              "frontend message keeps the loop alive, every event is answered in kind, the state is the flat run over the handled events, a "
-              "closed job socket is never read again. Unbounded in history length and number of jobs; tied to the real serve loop by a "
+              "out is answered with an error and leaves the state unchanged; at the serve level EVERY history of poll rounds (frontend bytes "
+              "that are no request included: they get an error response) keeps the loop alive unless a shutdown request arrives, every event "
+              "is answered in kind, the state is the flat run over the handled events, a closed job socket is never read again; erasing "
+              "malformed frontend bytes, non-report bytes on job sockets and queries from a history changes no later answer; the text form of a "
+              "result (base64, Model/Base64.lean) decodes back to the uploaded bytes for EVERY byte string and is injective. Timestamps are "
+              "unbounded integers in the model. Unbounded in history length and number of jobs; tied to the real serve loop by a "
               "round-by-round correspondence check. Carried by the tie only: that a Python exception inside a try block becomes the error "
-              "response / log line the model assumes.")
+              "response / log line the model assumes; that the gateway compares timestamps as exact integers (sampled: windows of 16 "
+              "neighbouring stamps at 0, at time.time_ns() size 1..300 ns apart, at monotonic_ns size, around 2^53 and around 2^63); that the "
+              "text in the real responses is the model's base64 text (compared character for character for results up to 4096 bytes) and "
+              "survives JSON and the client's request_response / decoded_result incl. cloudpickle (sampled: random bytes and pickled values).")
 LEVEL_NOTE = ("modelled, not verified: router.py JobRouter/spawn_job, server.py handle_fe/handle_controller/serve; zmq sockets/poller, "
               "subprocess.Popen and uuid4 are replaced by fakes (Popen validates argv like the real one); pickle/orjson/pydantic are exercised "
               "by the real parse/serialize functions but trusted; slurm launches are not exercised")
 TECHNIQUE = ("Lean 4 proof by induction over event histories and poll rounds (refinement to 'newest timestamp wins' / 'last upload wins' / "
-             "batch loop to flat run) + differential correspondence with the real serve loop")
+             "batch loop to flat run; base64 round trip by induction over byte triples with omega) + differential correspondence with the real serve loop")
 LEAN_PROPS = ["EkwVerif.Props.C18"]
 LEAN_DRIVERS = ["C18"]
 RULE = ("random histories of poll rounds (1-3 ready sockets each) over 1-5 jobs: submit (uuid candidates incl. collisions; launch failures: "
-        "bad spec / OSError from Popen), controller reports (progress / result upload / shutdown; timestamps 0..15 with reordering, ties and "
-        "duplicates, some negative or >= 2^63; payloads of 0..70000 bytes; reports naming another, an unknown or a not-yet-spawned job; reports "
-        "arriving on another job's socket or on a closed socket; non-report bytes), frontend progress/result queries incl. unknown "
-        "jobs/datasets, shutdown requests, malformed frontend bytes. non-trivial = history with >=2 progress reports for one job out of "
+        "bad spec / OSError from Popen), controller reports (progress / result upload / shutdown; per history one timestamp regime -- "
+        "0..15, time.time_ns()-sized (about 1.7e18, neighbours 1..300 ns apart), monotonic_ns-sized, the window around 2^53, the window "
+        "around 2^63 -- each with 16 neighbouring stamps, so that one job gets reordered, tied and duplicated neighbours; some negative or "
+        "1e30; payloads of 0..70000 random bytes or the pickle of a value; reports naming another, an unknown or a not-yet-spawned job; "
+        "reports arriving on another job's socket or on a closed socket; non-report bytes), frontend progress/result queries incl. unknown "
+        "jobs/datasets, shutdown requests, frontend bytes that are no request (10 kinds: no JSON, unknown class, missing / ill-typed "
+        "field, ...); 3% wide histories: 7-10 jobs with 7-14 uploaded datasets each, every first upload asked for. non-trivial = history with >=2 progress reports for one job out of "
         "timestamp order, a result upload, a report on a foreign socket or a report naming an unknown job; distinct by content hash")
 ASSUMPTIONS = [
     "zmq sockets and the poller are replaced by in-process fakes: the poller reports a socket only while it is registered, one message per socket and round",
+    "of zmq the fakes keep: the socket kinds (frontend REP for the clients' REQ, job sockets PULL for the controllers' PUSH: checked by the oracle), and that recv on / polling of a closed socket raises (ENOTSOCK)",
     "subprocess.Popen is replaced by a fake that validates argv as CPython does and records it; uuid4 is replaced by a scripted candidate stream; slurm launches are not exercised",
-    "frontend messages are instances of the API request classes: bytes that parse_request rejects end the serve loop (modelled as `malformed`, compared by the tie, outside the oracle)",
-    "oracle domain: timestamps of progress reports are non-negative (time.monotonic_ns); shutdown notices carry no uploads (Reporter.shutdown)",
+    "frontend bytes that parse_request rejects (10 fixed byte strings, all modelled as the one event `malformed`): the oracle demands an error response (a JSON object with a non-empty `error` and no job id / progress / result) and judges every later event as if they had not arrived",
+    "oracle domain: timestamps of progress reports are non-negative (clocks): while ALL progress reports received for a job carry negative timestamps the oracle accepts both the greatest of them and the initial progress; uploads inside a repeated shutdown notice (never sent by Reporter.shutdown) may be stored or dropped; non-report bytes on a job socket only have to leave the gateway serving",
+    "a retrieved result is decoded twice: base64 by the harness (wire level) and by the real frontend code (client.request_response over a replaying socket + api.decoded_result); the expected value is pickle.loads of the uploaded bytes (uploads are cloudpickle streams), bytes that are no pickle stream must make the client raise",
 ]
 
-LEGAL_OUT = ("spawned", "progress", "result", "bye", "reported", "died")
+LEGAL_OUT = ("spawned", "progress", "result", "bye", "reported", "rejected", "died")
 
 
 # ----------------------------------------------------------------------------- fakes
@@ -73,6 +88,8 @@ class FakeSocket:
         return port
 
     def recv(self):
+        if self.closed:
+            raise OSError(88, "Socket operation on non-socket")      # what zmq raises (ZMQError ENOTSOCK) on a closed socket
         tag, msg = self.inbox.pop(0)
         self.run.current = tag
         self.run.consumed.add(tag)
@@ -146,6 +163,12 @@ MALFORMED = {
     "clazz": orjson.dumps({"clazz": "NopeRequest"}),
     "response": orjson.dumps({"clazz": "ShutdownResponse", "error": None}),
     "fields": orjson.dumps({"clazz": "JobProgressRequest"}),
+    "fields-result": orjson.dumps({"clazz": "ResultRetrievalRequest", "job_id": "j0"}),
+    "field-type": orjson.dumps({"clazz": "JobProgressRequest", "job_ids": "j0"}),
+    "no-clazz": orjson.dumps({"job_ids": []}),
+    "clazz-type": orjson.dumps({"clazz": 5}),
+    "not-object": orjson.dumps([1, 2]),
+    "empty": b"",
 }
 
 
@@ -253,6 +276,9 @@ class ServeRun:
         self.round += 1
         if self.round >= len(self.batches):
             raise _EndOfScript()
+        if any(s.closed for s in poller.registered):
+            # zmq: polling a closed socket that is still registered raises ZMQError(ENOTSOCK)
+            raise OSError(88, "Socket operation on non-socket (a closed socket is still registered with the poller)")
         ready = []
         tags = []
         for i, ev in enumerate(self.batches[self.round]):
@@ -374,7 +400,17 @@ class ServeRun:
         sent = self.sent.get(tag, [])
         if len(sent) != 1:
             return {"responses": len(sent)}
-        rsp = orjson.loads(sent[0])
+        try:
+            rsp = orjson.loads(sent[0])
+        except Exception:
+            return {"unparsable-response": sent[0][:40].hex()}
+        if not isinstance(rsp, dict):
+            return {"unparsable-response": sent[0][:40].hex()}
+        if k == "malformed":
+            # an error response: names an error and carries nothing that reads as success
+            if isinstance(rsp.get("error"), str) and rsp["error"] and not any(rsp.get(f) for f in ("job_id", "progresses", "result")):
+                return {"rejected": True}
+            return {"accepted-malformed": rsp.get("clazz")}
         want = {"submit": "SubmitJobResponse", "progress": "JobProgressResponse", "result": "ResultRetrievalResponse",
                 "shutdown": "ShutdownResponse"}.get(k)
         if rsp.get("clazz") != want:
@@ -393,10 +429,83 @@ class ServeRun:
         if k == "result":
             if rsp["error"] is not None:
                 return {"result": None}
-            return {"result": base64.b64decode(rsp["result"]).hex()}
+            # wire level: the text in the response, base64-decoded here; client level: the REAL client code
+            # (client.request_response parsing the very bytes the gateway sent, then api.decoded_result)
+            return {"result": base64.b64decode(rsp["result"]).hex(), "decoded": client_decode(ev, self._encode(ev), sent[0]),
+                    "text": rsp["result"]}
         if k == "shutdown":
             return {"bye": rsp["error"] is None}
         return {"unexpected": k}
+
+
+def show_value(v):
+    import hashlib
+    r = repr(v)
+    return f"{type(v).__name__}:{r}" if len(r) <= 200 else f"{type(v).__name__}:{r[:200]}...#{len(r)}#{hashlib.sha1(r.encode('utf-8', 'replace')).hexdigest()[:12]}"
+
+
+def client_decode(ev, request_bytes, reply_bytes):
+    """The frontend side, real code: `client.request_response` (its own serialisation of the request, its parsing of the very
+    bytes the gateway sent) over a replaying REQ socket, then `api.decoded_result` on the response object it returns.
+    -> "<type>:<repr>" of the decoded value | "error:<where>:<exception class>" """
+    import cascade.gateway.api as api
+    import cascade.gateway.client as client
+    import zmq
+    sent = []
+
+    class Sock:
+        def set(self, *a, **k):
+            pass
+
+        def connect(self, *a, **k):
+            pass
+
+        def send(self, b):
+            sent.append(b)
+
+        def poll(self, *a, **k):
+            return 1
+
+        def recv(self):
+            return reply_bytes
+
+        def close(self, *a, **k):
+            pass
+
+    class Shim:
+        def __getattr__(self, name):
+            return getattr(zmq, name)
+
+        def Context(self):
+            return types.SimpleNamespace(socket=lambda kind: Sock())
+    old = client.zmq
+    lg = logging.getLogger("cascade.gateway.client")
+    old_disabled = lg.disabled
+    lg.disabled = True
+    try:
+        client.zmq = Shim()
+        try:
+            rsp = client.request_response(api.ResultRetrievalRequest(job_id=ev["job"], dataset_id=_ds(ev["ds"])), "tcp://gw:1")
+        except Exception as e:
+            return f"error:request_response:{type(e).__name__}"
+    finally:
+        client.zmq = old
+        lg.disabled = old_disabled
+    if sent != [request_bytes]:
+        return "error:client-sends-other-request-bytes"
+    try:
+        return show_value(api.decoded_result(rsp, None))
+    except BaseException as e:
+        return f"error:decoded_result:{type(e).__name__}"
+
+
+def expect_decoded(hexbytes):
+    """what the frontend must get for an upload of these bytes: the value they are the pickle of (results are uploaded as
+    cloudpickle = pickle streams); bytes that are no pickle stream cannot be decoded by any client"""
+    try:
+        return show_value(pickle.loads(bytes.fromhex(hexbytes)))
+    except BaseException:
+        return "error"
 
 
 def run_real(batches):
@@ -415,7 +524,19 @@ POOL = ["j%d" % i for i in range(6)]
 DSS = ["t%d|o%d" % (i, k) for i in range(2) for k in range(2)] + ["a.b|c", "a|b.c"]
 
 
+# values whose pickle stream is uploaded as a result (what a controller uploads: cloudpickle.dumps(value) = a pickle stream)
+PICKLED = [None, True, 0, -1, 2 ** 70, 1.5, "text", "\u00e9\u2028 ", b"\x00\xff", [1, [2, "x"]], (1, "a"), {"k": [1, 2], "": None},
+           list(range(300)), "x" * 1000, b"\xfb\xef\xbe" * 40, [0.1, -0.0, 1e300]]
+
+
 def _payload(rng, cnt):
+    r = rng.random()
+    if r < 0.30:
+        v = rng.choice(PICKLED)
+        if rng.random() < 0.01:
+            v = b"\x07" * 70000
+        cnt("payload:pickled-value")
+        return pickle.dumps(v, protocol=rng.choice([2, 4, 5])).hex()
     r = rng.random()
     if r < 0.10:
         n = 0
@@ -434,19 +555,82 @@ def _payload(rng, cnt):
     return "".join("%02x" % ((seed + 7 * i) % 256) for i in range(n))
 
 
-def _ts(rng, cnt):
+def ts_regime(rng, cnt):
+    """Per history: where the timestamps of its reports live. All reports of a history draw from base + step * (0..15), so
+    several reports of ONE job carry neighbouring stamps, in both orders of arrival, with ties and duplicates.
+      small        0..15
+      time_ns      what time.time_ns() returns today (about 1.7e18), neighbours 1..300 ns apart
+      monotonic_ns what time.monotonic_ns() returns (uptime: seconds to months), neighbours 1 ns .. 1 ms apart
+      2^53         the window around 2^53 (first integers a double cannot tell apart)
+      2^63         the window around 2^63 (signed 64-bit boundary)"""
     r = rng.random()
-    if r < 0.90:
-        cnt("ts:0-15")
-        return rng.randint(0, 15)
-    if r < 0.95:
+    if r < 0.46:
+        name, base, steps = "small", 0, [1]
+    elif r < 0.68:
+        name, base, steps = "time_ns", rng.randint(1_600_000_000, 1_900_000_000) * 10 ** 9 + rng.randint(0, 10 ** 9 - 1), [1, 1, 3, 20, 100, 255, 300]
+    elif r < 0.78:
+        name, base, steps = "monotonic_ns", rng.randint(10 ** 9, 10 ** 16), [1, 1, 1000, 10 ** 6]
+    elif r < 0.89:
+        name, base, steps = "2^53", 2 ** 53 - rng.randint(0, 15), [1]
+    else:
+        name, base, steps = "2^63", 2 ** 63 - rng.randint(0, 15), [1]
+    cnt("ts_regime:" + name)
+    return name, base, rng.choice(steps)
+
+
+def _ts(rng, cnt, reg=("small", 0, 1)):
+    r = rng.random()
+    if r < 0.93:
+        cnt("ts:" + reg[0])
+        return reg[1] + reg[2] * rng.randint(0, 15)
+    if r < 0.97:
         cnt("ts:negative")
         return -rng.randint(1, 3)
-    cnt("ts:>=2^63")
-    return rng.choice([2 ** 63, 2 ** 63 + rng.randint(1, 3), 10 ** 30 + rng.randint(0, 2)])
+    cnt("ts:1e30")
+    return 10 ** 30 + rng.randint(0, 2)
+
+
+WIDE_DSS = ["w%d|o" % i for i in range(16)]
+
+
+def gen_wide_history(rng, cnt=lambda k, n=1: None):
+    """Many jobs, many datasets per job: 7-10 jobs, 7-14 uploaded datasets each (some re-uploaded), then every first upload and a
+    sample of the others is asked for, and the progress of all jobs: a bound on the number of results kept per job, or on the number
+    of tracked jobs, shows here."""
+    reg = ts_regime(rng, cnt)
+    nj = rng.randint(7, 10)
+    ids = ["j%d" % i for i in range(nj)]
+    batches = [[{"k": "submit", "candidates": [j], "fail": None}] for j in ids]
+    reports = []
+    asked = []
+    for j in ids:
+        dss = rng.sample(WIDE_DSS, rng.randint(7, 14))
+        cnt("wide:datasets_per_job", len(dss))
+        i = 0
+        while i < len(dss):
+            n = rng.randint(1, 3)
+            reports.append({"k": "report", "owner": j, "job": j, "status": None, "ts": _ts(rng, cnt, reg),
+                            "results": [[d, _payload(rng, cnt)] for d in dss[i:i + n]]})
+            i += n
+        if rng.random() < 0.5:
+            reports.append({"k": "report", "owner": j, "job": j, "status": None, "ts": _ts(rng, cnt, reg), "results": [[rng.choice(dss), _payload(rng, cnt)]]})
+        reports.append({"k": "report", "owner": j, "job": j, "status": "%d.00" % rng.randint(1, 99), "ts": _ts(rng, cnt, reg), "results": []})
+        asked += [(j, dss[0]), (j, dss[-1])] + [(j, rng.choice(WIDE_DSS)) for _ in range(2)]
+    # reports of one job stay in order among themselves (uploads are not timestamp-guarded), jobs interleave
+    per = {j: [r for r in reports if r["job"] == j] for j in ids}
+    while any(per.values()):
+        j = rng.choice([j for j in ids if per[j]])
+        batches.append([per[j].pop(0)])
+    rng.shuffle(asked)
+    batches += [[{"k": "result", "job": j, "ds": d}] for j, d in asked]
+    batches.append([{"k": "progress", "ids": []}])
+    cnt("histories_wide")
+    cnt("wide:jobs", nj)
+    return batches
 
 
 def gen_history(rng, nops, cnt=lambda k, n=1: None):
+    reg = ts_regime(rng, cnt)
     batches = [[{"k": "submit", "candidates": [POOL[0]], "fail": None}]]
     ids = [POOL[0]]          # ids the generator believes are handed out (a guide for the distribution only)
     made = 1
@@ -455,7 +639,7 @@ def gen_history(rng, nops, cnt=lambda k, n=1: None):
         batch = []
         socks = set()
         for _ in range(size):
-            ev = _gen_event(rng, ids, made / max(1, nops), cnt)
+            ev = _gen_event(rng, ids, made / max(1, nops), cnt, reg)
             sock = ev.get("owner", "fe") if ev["k"] in ("report", "garbage") else "fe"
             if sock in socks:
                 continue            # a poller reports a socket once per round
@@ -473,7 +657,7 @@ def gen_history(rng, nops, cnt=lambda k, n=1: None):
     return batches
 
 
-def _gen_event(rng, ids, progress_frac, cnt):
+def _gen_event(rng, ids, progress_frac, cnt, reg=("small", 0, 1)):
     r = rng.random()
     if r < 0.12:
         c = [rng.choice(ids) for _ in range(rng.randint(0, 2))] + [rng.choice(POOL)] + ["z%d" % len(ids)]
@@ -512,7 +696,7 @@ def _gen_event(rng, ids, progress_frac, cnt):
             res = [[rng.choice(DSS), _payload(rng, cnt)] for _ in range(rng.randint(1, 2))]
         if status is None and not res:
             cnt("report:empty")
-        return {"k": "report", "owner": owner, "job": j, "status": status, "ts": _ts(rng, cnt), "results": res}
+        return {"k": "report", "owner": owner, "job": j, "status": status, "ts": _ts(rng, cnt, reg), "results": res}
     if r < 0.78:
         if rng.random() < 0.4:
             q = []
@@ -522,6 +706,8 @@ def _gen_event(rng, ids, progress_frac, cnt):
     if r < 0.96:
         return {"k": "result", "job": rng.choice(ids + ["nope"]) if rng.random() < 0.15 else rng.choice(ids), "ds": rng.choice(DSS + ["t9|o9"])}
     if r < 0.975:
+        if rng.random() < 0.4:
+            return {"k": "malformed", "how": rng.choice(sorted(MALFORMED))}
         return {"k": "garbage", "owner": rng.choice(ids), "how": rng.choice(["unpicklable", "wrong-type"])}
     # loop-ending events: rare, and mostly late in the history
     if rng.random() < 0.3 + 0.7 * progress_frac:
@@ -556,23 +742,20 @@ class Oracle:
     def __init__(self):
         self.ids = []          # ids handed out by submit responses, in order
         self.prog = {}         # job -> list of (ts, progress) received for it
-        self.negts = set()     # jobs that received a progress report with a negative timestamp (outside the domain)
         self.res = {}          # (job, ds) -> set of acceptable answers (hex or None)
         self.shut = set()      # jobs whose shutdown notice was received
         self.alive = True      # no shutdown request answered yet
-        self.in_domain = True
 
     def check_round(self, batch, outs, run, r):
         """Returns (kind, signature-extras, text) of the first failure in this poll round, or None."""
         alive0 = self.alive
         open0 = {j for j in self.ids if j not in self.shut}
+        if r == 0:
+            import zmq
+            # frontends talk REQ (client.request_response): the gateway's frontend socket must be its REP counterpart
+            if run.fe is None or run.fe.kind != zmq.REP:
+                return ("socket-kind", {"socket": "frontend"}, f"the frontend socket is of zmq kind {getattr(run.fe, 'kind', None)}, clients connect with REQ and need REP ({zmq.REP})")
         for i, (ev, out) in enumerate(zip(batch, outs)):
-            if not self.in_domain:
-                return None
-            k = ev["k"]
-            if k in ("malformed", "garbage"):
-                self.in_domain = False        # not a request / not a report: outside the property
-                return None
             f = self._event(ev, out, run, (r, i), alive0 and self.alive, open0)
             if f:
                 return f
@@ -580,7 +763,7 @@ class Oracle:
 
     def _event(self, ev, out, run, tag, alive, open0):
         k = ev["k"]
-        is_ctrl = k == "report"
+        is_ctrl = k in ("report", "garbage")
         must = alive and (not is_ctrl or (ev["owner"] in open0 and ev["owner"] not in self.shut))
         served = isinstance(out, dict) and not ("died" in out)
         if isinstance(out, dict) and "harness" in out:
@@ -606,6 +789,14 @@ class Oracle:
             return self._result(ev, out)
         if k == "report":
             return self._report(ev, out)
+        if k == "malformed":
+            # bytes that are no request (or a request class with a missing / ill-typed field): whoever sent them gets an error
+            # response; nothing else may change (every later query is judged as if they had not arrived)
+            if out.get("rejected") is not True:
+                return ("malformed-request-no-error", {}, f"frontend bytes {MALFORMED[ev['how']][:40]!r} that are no valid request were answered with {out}")
+            return None
+        # k == "garbage": bytes on a job's socket that are no report: the gateway only has to survive them (served, above);
+        # every later query is judged as if they had not arrived
         return None
 
     def _submit(self, ev, out, run, tag):
@@ -630,6 +821,10 @@ class Oracle:
             return ("spawn-misaddressed", {}, f"submit answered with id {j!r} but launched {len(mine)} controller(s) with a report address")
         val = mine[0][mine[0].index("--report_address") + 1]
         bound = [s for s in run.bound_by.get(tag, []) if s in run.registered_by.get(tag, [])]
+        import zmq
+        if any(s.kind != zmq.PULL for s in bound):
+            # controllers report through a PUSH socket (report.Reporter): only a PULL socket receives every report of one peer
+            return ("socket-kind", {"socket": "job"}, f"job {j!r}: its report socket is of zmq kind {[s.kind for s in bound]}, controllers PUSH and need PULL ({zmq.PULL})")
         if val not in [f"{s.addr},{j}" for s in bound]:
             return ("spawn-misaddressed", {}, f"job {j!r}: controller told to report to {val!r}; sockets bound and polled for it: {[s.addr for s in bound]}")
         return None
@@ -654,14 +849,17 @@ class Oracle:
         if missing:
             return ("job-forgotten", {}, f"progress query: no entry for {missing}")
         for j in q:
-            if j in self.negts:
-                continue
             rs = self.prog[j]
             if not rs:
                 ok = {"0.00"}
             else:
                 m = max(t for t, _ in rs)
                 ok = {p for t, p in rs if t == m}
+                if m < 0:
+                    # every progress report so far carries a negative timestamp: outside the domain (clocks are non-negative);
+                    # showing the greatest of them or still the initial progress are both accepted. As soon as a report
+                    # with a non-negative timestamp has arrived the text decides again.
+                    ok = ok | {"0.00"}
             if got.get(j) not in ok:
                 return ("stale-progress", {}, f"job {j}: shown {got.get(j)!r}, reports with the greatest timestamp carry {sorted(ok)}")
         return None
@@ -676,6 +874,13 @@ class Oracle:
                 return ("unknown-dataset-no-error" if ev["job"] in self.ids else "unknown-job-no-error", {},
                         f"result query for {key}: nothing was uploaded for it, got {_short(out['result'])}")
             return ("wrong-result", {"size": _size_class(want)}, f"result for {key}: got {_short(out['result'])}, uploaded {sorted(_short(w) for w in want)}")
+        if out["result"] is not None:
+            # the same answer as the frontend sees it: through the real client (request_response + decoded_result)
+            exp = expect_decoded(out["result"])
+            got = out.get("decoded")
+            if (exp == "error") != str(got).startswith("error") or (exp != "error" and got != exp):
+                return ("result-decoded-wrong", {"expected": "error" if exp == "error" else "value"},
+                        f"result for {key}: the uploaded bytes {_short(out['result'])} are the pickle of {exp[:80]}; the client (request_response + decoded_result) gives {str(got)[:80]}")
         return None
 
     def _report(self, ev, out):
@@ -689,10 +894,8 @@ class Oracle:
             self.shut.add(j)
         elif ev["status"] is not None:
             self.prog[j].append((ev["ts"], ev["status"]))
-            if ev["ts"] < 0:
-                self.negts.add(j)
         for d, b in ev["results"]:
-            if ev["status"] == "Shutdown":      # outside the domain: either outcome is accepted
+            if second:      # uploads inside a REPEATED shutdown notice (never sent by a controller): either outcome is accepted
                 self.res[(j, d)] = set(self.res.get((j, d), {None})) | {b}
             else:
                 self.res[(j, d)] = {b}
@@ -764,12 +967,18 @@ def _lean_ev(ev):
     return e
 
 
-def _model_outs(histories):
+B64_TIE_MAX_BYTES = 4096      # the text form of longer results is not compared with the model (the driver is an interpreter)
+
+
+def _model_outs(histories, hexes=()):
+    """-> (model outputs per history and round, {hex: (base64 text the model renders, decode(encode) = bytes?)})"""
     from ekw.core import lean_drive
     lines = []
     for bs in histories:
         lines.append(json.dumps({"op": "reset"}))
         lines += [json.dumps({"op": "poll", "events": [_lean_ev(e) for e in b]}) for b in bs]
+    hexes = list(hexes)
+    lines += [json.dumps({"op": "b64", "hex": h}) for h in hexes]
     res = lean_drive("C18", lines)
     outs = []
     k = 0
@@ -777,7 +986,11 @@ def _model_outs(histories):
         k += 1
         outs.append([json.loads(x) for x in res[k:k + len(bs)]])
         k += len(bs)
-    return outs
+    texts = {}
+    for h, x in zip(hexes, res[k:k + len(hexes)]):
+        m = json.loads(x)
+        texts[h] = (m.get("text"), m.get("back")) if isinstance(m, dict) else (None, None)
+    return outs, texts
 
 
 def _canon(o):
@@ -788,6 +1001,8 @@ def _canon(o):
             return {"died": True}
         if "spawned" in o:
             return {"spawned": o["spawned"]}
+        if "decoded" in o:
+            return {k: v for k, v in o.items() if k not in ("decoded", "text")}
     return o
 
 
@@ -834,6 +1049,43 @@ WITNESSES = [
       {"k": "report", "owner": "j0", "job": "j0", "status": "70.00", "ts": 9, "results": [["a.b|c", ""]]}],
      [{"k": "report", "owner": "j0", "job": "j0", "status": "80.00", "ts": 10, "results": []}],
      [{"k": "progress", "ids": ["j0"]}, ], [{"k": "result", "job": "j0", "ds": "a.b|c"}], [{"k": "result", "job": "j0", "ds": "a|b.c"}]],
+    # timestamps as clocks give them: two reports of one job 1 ns / 100 ns apart near 2^63 and at time.time_ns() size, the older one
+    # arriving late, and the newer one arriving in order (a last_seen kept with less than integer precision fails one of them)
+    [[{"k": "submit", "candidates": ["j0"], "fail": None}],
+     [{"k": "report", "owner": "j0", "job": "j0", "status": "20.00", "ts": 2 ** 63 + 2, "results": []}],
+     [{"k": "report", "owner": "j0", "job": "j0", "status": "10.00", "ts": 2 ** 63 + 1, "results": []}],
+     [{"k": "progress", "ids": ["j0"]}]],
+    [[{"k": "submit", "candidates": ["j0"], "fail": None}],
+     [{"k": "report", "owner": "j0", "job": "j0", "status": "20.00", "ts": 1758700000123456789 + 200, "results": []}],
+     [{"k": "report", "owner": "j0", "job": "j0", "status": "10.00", "ts": 1758700000123456789 + 100, "results": []}],
+     [{"k": "progress", "ids": ["j0"]}]],
+    [[{"k": "submit", "candidates": ["j0"], "fail": None}],
+     [{"k": "report", "owner": "j0", "job": "j0", "status": "10.00", "ts": 1758700000123456789 + 130, "results": []}],
+     [{"k": "report", "owner": "j0", "job": "j0", "status": "20.00", "ts": 1758700000123456789 + 131, "results": []}],
+     [{"k": "progress", "ids": ["j0"]}]],
+    [[{"k": "submit", "candidates": ["j0"], "fail": None}],
+     [{"k": "report", "owner": "j0", "job": "j0", "status": "10.00", "ts": 2 ** 53, "results": []}],
+     [{"k": "report", "owner": "j0", "job": "j0", "status": "20.00", "ts": 2 ** 53 + 1, "results": []}],
+     [{"k": "progress", "ids": ["j0"]}]],
+    # frontend bytes that are no request (incl. a request class with a missing field): error response, every job still served
+    [[{"k": "submit", "candidates": ["j0"], "fail": None}],
+     [{"k": "report", "owner": "j0", "job": "j0", "status": "50.00", "ts": 3, "results": [["t0|o0", "8004952d"]]}],
+     [{"k": "malformed", "how": "fields"}], [{"k": "progress", "ids": ["j0"]}], [{"k": "malformed", "how": "bytes"}],
+     [{"k": "malformed", "how": "fields-result"}, {"k": "report", "owner": "j0", "job": "j0", "status": "40.00", "ts": 2, "results": []}],
+     [{"k": "result", "job": "j0", "ds": "t0|o0"}], [{"k": "progress", "ids": []}]],
+    # non-report bytes on a job's socket, a report with a negative timestamp: what follows is still judged
+    [[{"k": "submit", "candidates": ["j0"], "fail": None}],
+     [{"k": "garbage", "owner": "j0", "how": "unpicklable"}],
+     [{"k": "report", "owner": "j0", "job": "j0", "status": "5.00", "ts": -2, "results": []}],
+     [{"k": "report", "owner": "j0", "job": "j0", "status": "70.00", "ts": 9, "results": []}],
+     [{"k": "garbage", "owner": "j0", "how": "wrong-type"}],
+     [{"k": "report", "owner": "j0", "job": "j0", "status": "60.00", "ts": 8, "results": []}],
+     [{"k": "progress", "ids": ["j0"]}]],
+    # a pickled value uploaded in the first shutdown notice; seven datasets for one job
+    [[{"k": "submit", "candidates": ["j0"], "fail": None}],
+     [{"k": "report", "owner": "j0", "job": "j0", "status": None, "ts": 1, "results": [["w%d|o" % i, pickle.dumps(i).hex()] for i in range(4)]}],
+     [{"k": "report", "owner": "j0", "job": "j0", "status": "Shutdown", "ts": 2, "results": [["w%d|o" % i, pickle.dumps([i, "\u00e9"]).hex()] for i in range(4, 7)]}],
+     [{"k": "result", "job": "j0", "ds": "w0|o"}], [{"k": "result", "job": "j0", "ds": "w6|o"}], [{"k": "result", "job": "j0", "ds": "w3|o"}]],
 ]
 
 
@@ -857,7 +1109,10 @@ def correspond(ctx):
         hist.append(c["batches"] if "batches" in c else legacy_to_batches(c["ops"]))
     hist += [json.loads(json.dumps(w)) for w in WITNESSES]
     for _ in range(n):
-        hist.append(gen_history(ctx.rng, ctx.rng.randint(3, maxops), ctx.count))
+        if ctx.rng.random() < 0.03:
+            hist.append(gen_wide_history(ctx.rng, ctx.count))
+        else:
+            hist.append(gen_history(ctx.rng, ctx.rng.randint(3, maxops), ctx.count))
     real_outs = []
     real_phase = []
     seen_sig = set()
@@ -900,7 +1155,20 @@ def correspond(ctx):
             small = shrink(batches, same)
             f2 = run_history(small)[1]
             ctx.violation(sig, {"batches": small}, f2[2] if f2 else fail[2])
-    model_outs = _model_outs(hist)
+    # the text form of every retrieved result (what went into the JSON response) against Model/Base64.lean
+    real_text = {}
+    for outs in real_outs:
+        for row in outs:
+            for o in row:
+                if isinstance(o, dict) and isinstance(o.get("text"), str) and len(o["result"]) <= 2 * B64_TIE_MAX_BYTES:
+                    real_text.setdefault(o["result"], o["text"])
+    model_outs, model_text = _model_outs(hist, sorted(real_text))
+    ctx.count("result_texts_compared_with_model", len(real_text))
+    for h, t in sorted(real_text.items()):
+        mt, back = model_text.get(h, (None, None))
+        if mt != t or back is not True:
+            ctx.disagree("result-text-base64", {"uploaded_hex": h}, {"text": mt, "decode_encode_is_identity": back}, {"text": t})
+            break
     for batches, ro, ph, mo in zip(hist, real_outs, real_phase, model_outs):
         ctx.traces += 1
         for i, (a, b) in enumerate(zip(ro, mo)):
